@@ -23,6 +23,8 @@ func init() {
 	ex := "internal/types/expr.go"
 	vb := "internal/backends/compiler_wat/wir/value_basic.go"
 	register(&Property{ID: "C15", Run: runC15, Mutants: []Mutant{
+		{Name: "native multiplication fast path accepts 33-bit operands", File: "internal/constant/value.go", Old: "func is32bit(x int64) bool {\n\tconst s = 32\n\treturn -1<<(s-1) <= x && x <= 1<<(s-1)-1", New: "func is32bit(x int64) bool {\n\tconst s = 32\n\treturn -1<<(s-1) <= x && x <= 1<<s-1", Expect: "fast-path-bounds :: is32bit"},
+		{Name: "f32 constants rounded twice", File: ex, Old: "func roundFloat32(x constant.Value) constant.Value {\n\tf32, _ := constant.Float32Val(x)\n\tf := float64(f32)", New: "func roundFloat32(x constant.Value) constant.Value {\n\tf64, _ := constant.Float64Val(x)\n\tf := float64(float32(f64))", Expect: "float-rounding :: roundFloat32"},
 		{Name: "int16 representability uses 15 bits", File: ex, Old: "\t\t\tcase Int16:\n\t\t\t\tconst s = 16", New: "\t\t\tcase Int16:\n\t\t\t\tconst s = 15", Expect: "representable-bounds :: Int16"},
 		{Name: "uint8 upper bound off by one", File: ex, Old: "\t\t\tcase Uint8:\n\t\t\t\tconst s = 8\n\t\t\t\treturn 0 <= x && x <= 1<<s-1", New: "\t\t\tcase Uint8:\n\t\t\t\tconst s = 8\n\t\t\t\treturn 0 <= x && x <= 1<<s", Expect: "representable-bounds :: Uint8"},
 		{Name: "int32 lower bound excludes MinInt32", File: ex, Old: "\t\t\tcase Int32:\n\t\t\t\tconst s = 32\n\t\t\t\treturn -1<<(s-1) <= x", New: "\t\t\tcase Int32:\n\t\t\t\tconst s = 32\n\t\t\t\treturn -1<<(s-1) < x", Expect: "representable-bounds :: Int32"},
@@ -47,12 +49,16 @@ func runC15(c *Ctx) {
 		"NOT decided: the arithmetic of internal/constant itself (a vendored port of go/constant), overflow detection per operator, rounding of float constants, and the run-time side of the comparison (covered by the lowering tables of C01)."
 	c.Trusted = []string{"go/packages, go/types (x/tools v0.29.0)", "Go specification: ranges of the sized integer kinds"}
 	c.Exhaust = true
-	p := c.Load(LoadOpt{Light: true}, "./internal/types", "./internal/backends/compiler_wat", "./internal/backends/compiler_wat/wir")
+	p := c.Load(LoadOpt{Light: true}, "./internal/types", "./internal/constant", "./internal/backends/compiler_wat", "./internal/backends/compiler_wat/wir")
 	tp := p.MustPkg("representable-bounds", "internal/types")
 	bk := p.MustPkg("materialise-accessor", "internal/backends/compiler_wat")
 	wp := p.MustPkg("literal-spelling", "internal/backends/compiler_wat/wir")
 	if tp != nil {
 		c15Representable(c, p, tp)
+		c15FloatRounding(c, p, tp)
+	}
+	if cp := p.MustPkg("fast-path-bounds", "internal/constant"); cp != nil {
+		c15FastPath(c, p, cp)
 	}
 	var spell map[string]string
 	if bk != nil {
